@@ -25,8 +25,9 @@ GROUPS = {"ipf": "check_ipf_p", "mux": "check_mux_p"}
 EXPLAIN = {"ipf": "explain_ipf_p", "mux": "explain_mux_p"}
 CASES = {"quick": 900, "thorough": 16000}
 RULE = ("ipf cases: 1-3 filters (allow/block lists of addresses and CIDRs, primary prefix length cycles through 0..32 / 0..128, "
-        "overlapping / nested / sibling entries, IPv4, IPv6, mixed, IPv4-mapped-IPv6 entries in an exotic stream, malformed stream) "
-        "x clients at the prefix boundaries (bit len-1 / len flipped, first/last address, just below/above, other family, unparsable); "
+        "overlapping / nested / sibling entries, IPv4, IPv6 (random and sparse addresses; entry text canonical-compressed, full, uncompressed, upper case, "
+        "dotted tail, bare or with /len), mixed, IPv4-mapped-IPv6 entries in an exotic stream, malformed stream) "
+        "x clients at the prefix boundaries (bit len-1 / len flipped, first/last address, just below/above, neighbours of single addresses in the same /64 /32 /16 (v4: /24 /16 /8), other family, unparsable); "
         "non-trivial = at least one filter and one client; classes add: v6 client(+1) both answers seen(+2) client in allowed and blocked(+4) "
         "unparsable client(+8) mapped entry(+16) chain of several filters(+32) proper CIDR(+64). "
         "mux cases: server/rule/path filters x request sequences (client via RemoteAddr / X-Real-IP / X-Forwarded-For) on three real mux "
@@ -159,6 +160,7 @@ def encode(c):
 
 def distribution(cases):
     d = dict(groups={}, v4_prefix_lengths=set(), v6_prefix_lengths=set(), entries=0, mapped_entries=0, rejected_entries=0,
+             bare_v6_entries_by_colons={}, v6_entry_text=dict(upper_case=0, full_form=0, dotted_tail=0),
              clients=0, unparsable_clients=0, v6_clients=0, answers={"0": 0, "1": 0, "2": 0},
              mux_requests=0, mux_hits=0, mux_status={}, mux_client_source={"remote": 0, "xrealip": 0, "xff": 0})
     for c in cases:
@@ -166,6 +168,17 @@ def distribution(cases):
         d["groups"][g] = d["groups"].get(g, 0) + 1
         orc = c["in"].get("orc") or {}
         if g == "ipf":
+            for f in c["in"].get("filters") or []:
+                for e in (f.get("allow") or []) + (f.get("block") or []):
+                    if ":" not in e or e.lower().startswith("::ffff:"):
+                        continue
+                    t = d["v6_entry_text"]
+                    t["upper_case"] += e != e.lower()
+                    t["full_form"] += len(e.split("/")[0]) == 39
+                    t["dotted_tail"] += "." in e
+                    if "/" not in e and "%" not in e:
+                        k = str(e.count(":"))
+                        d["bare_v6_entries_by_colons"][k] = d["bare_v6_entries_by_colons"].get(k, 0) + 1
             for fo in orc.get("filters") or []:
                 for e in (fo["allow"] or []) + (fo["block"] or []):
                     d["entries"] += 1
